@@ -77,10 +77,29 @@ def run(ctx):
     ok = i_none is not None and i_set is not None and i_none < i_set
     ctx.ob("C40.D3-only-when-enabled", cname(opn, None, "the descriptor uid is None unless recording"), ok, "" if ok else "the enabling uid is not reset per run", where=where(opn, opn.node))
     ri = rm.b("record_interruption")
-    top = A.body(ri.node)
-    ok = len(top) == 1 and isinstance(top[0], ast.If) and A.norm(top[0].test) == "self._interruptions_desc_uid is not None" and not top[0].orelse
-    ctx.ob("C40.D3-only-when-enabled", cname(ri, None, "no-op unless the stream exists"), ok, "" if ok else "record_interruption acts without an interruptions stream", where=where(ri, ri.node))
-    body = top[0].body if ok else ri.node.body
+    # every statement of record_interruption that composes, emits or counts is reached only when the stream exists
+    g = q.cfg(ri, q.quiet_policy(repo))
+    UID = "self._interruptions_desc_uid"
+
+    def passes_guard(u, v, label):
+        n = g.nodes[u]
+        if n.kind == "test":
+            t = A.norm(n.ast)
+            if (t in (f"{UID} is not None", f"{UID} != None", UID) and label == "T") or (t in (f"{UID} is None", f"{UID} == None", f"not {UID}") and label == "F"):
+                return False
+        return True
+
+    acting = [s for s in A.walk_stmts(ri.node.body) if not isinstance(s, (ast.If, ast.While, ast.For, ast.Try, ast.With))
+              and (any(A.call_name(c) in ("self.emit_sync", "self.emit") or (A.call_name(c) or "").endswith("_interruptions_compose_event") for c in A.calls_in(s))
+                   or any((A.chain(t) or "").startswith("self._interruptions_counter") for t in A.targets_of(s)))]
+    seen = g.reachable([g.entry], edge_ok=passes_guard)
+    bad = [s for s in acting if any(i in seen for i in g.nodes_of(s))]
+    ok = bool(acting) and not bad
+    ctx.ob("C40.D3-only-when-enabled", cname(ri, None, "no-op unless the stream exists"), ok,
+           "" if ok else ("record_interruption acts without an interruptions stream: `" + A.short(bad[0]) + "` is reachable when the descriptor uid is None" if bad
+                          else "record_interruption no longer composes / emits anything"),
+           where=where(ri, bad[0] if bad else ri.node), nontrivial=True)
+    body = ri.node.body
     n_emit = len([c for s in body for c in A.calls_in(s) if A.call_name(c) in ("self.emit_sync", "self.emit")])
     n_comp = len([c for s in body for c in A.calls_in(s) if (A.call_name(c) or "").endswith("_interruptions_compose_event")])
     loops = [s for s in A.walk_stmts(body) if isinstance(s, (ast.For, ast.While))]
@@ -114,10 +133,33 @@ MUTANTS = [
      [(RE, "        if defer:\n            self._deferred_pause_requested = True\n", "        if defer:\n            self._deferred_pause_requested = True\n            for current_run in self._run_bundlers.values():\n                current_run.record_interruption(\"pause\")\n")], "C40.D2"),
     ("interruptions stream always created",
      [(BU, "        if self.record_interruptions:\n            # To store the interruptions uid outside of event-model", "        if True:\n            # To store the interruptions uid outside of event-model")], "C40.D3"),
+    ("record no longer guarded by the stream's existence",
+     [(BU, "        if self._interruptions_desc_uid is not None:\n            # We are inside a run and self.record_interruptions is True.", "        if True:\n            # We are inside a run and self.record_interruptions is True.")], "C40.D3"),
+    ("every record site short-circuits after the first run that recorded",
+     [(RE, '            current_run.record_interruption("pause")', '            done = locals().get("done") or current_run.record_interruption("pause")')], "C40.D2"),
     ("record emits twice", [(BU, "            self._interruptions_counter += 1\n            self.emit_sync(DocumentNames.event, doc)", "            self._interruptions_counter += 1\n            self.emit_sync(DocumentNames.event, doc)\n            self.emit_sync(DocumentNames.event, doc)")], "C40.D3"),
     ("abort also records", [(RE, "        self._exit_status = \"abort\"\n        self._destroy_open_run_tracing_spans()", "        self._exit_status = \"abort\"\n        for current_run in self._run_bundlers.values():\n            current_run.record_interruption(\"abort\")\n        self._destroy_open_run_tracing_spans()")], "C40.D2"),
     ("suspension not recorded", [(RE, '            current_run.record_interruption(justification if justification is not None else "suspended")', "            pass")], "C40.D2"),
 ]
 BENIGN = [
+    ("record_interruption written with an early return and a result",
+     [(BU, """        if self._interruptions_desc_uid is not None:
+            # We are inside a run and self.record_interruptions is True.
+            doc = self._interruptions_compose_event(
+                data={"interruption": content},
+                timestamps={"interruption": ttime.time()},
+            )
+            self._interruptions_counter += 1
+            self.emit_sync(DocumentNames.event, doc)
+""", """        if self._interruptions_desc_uid is None:
+            return False
+        doc = self._interruptions_compose_event(
+            data={"interruption": content},
+            timestamps={"interruption": ttime.time()},
+        )
+        self._interruptions_counter += 1
+        self.emit_sync(DocumentNames.event, doc)
+        return True
+""")]),
     ("record loop variable renamed", [(RE, '        for current_run in self._run_bundlers.values():\n            current_run.record_interruption("resume")', '        for bundler in self._run_bundlers.values():\n            bundler.record_interruption("resume")')]),
 ]
